@@ -28,3 +28,13 @@ Definition bmismatches (l : list case) : list nat := mism bok l.
 Definition dok (c : case) : bool :=
   match decode_literal (fst c) with Done v [] => str_eqb v (snd c) | _ => false end.
 Definition dmismatches (l : list case) : list nat := mism dok l.
+
+(* F-97: (value, literal written by value_to_token, literal.encode(encoding, "backslashreplace") decoded again, first code point the encoding does not
+   represent: 128 = ascii, 256 = latin-1) - the model's encode_text against Python's codec, and the escaped literal read back by the lexer model *)
+Definition ecase := (list N * list N * list N * N)%type.
+Definition eok (c : ecase) : bool :=
+  match c with (s, lit, enc, limit) =>
+    str_eqb (encode_text (fun x => x <? limit) lit) enc
+    && match decode_literal enc with Done v [] => str_eqb v s | _ => false end
+  end.
+Definition emismatches (l : list ecase) : list nat := mism eok l.
